@@ -96,6 +96,15 @@ pub(crate) fn std_spec_le_bytes(s: &mut impl Src) {
     let c = u16::to_le_bytes(y);
     assert!(c[0] as u16 + 256 * (c[1] as u16) == y && u16::from_le_bytes(c) == y);
 }
+// S2: i32::saturating_mul as specified in the Verus prelude (i32_sat_mul), for the multipliers the crate uses (3 and 10)
+pub(crate) fn std_spec_i32_saturating_mul(s: &mut impl Src) {
+    let a = s.u32() as i32;
+    for m in [3i32, 10i32] {
+        let wide = (a as i64) * (m as i64);
+        let expect = if wide > i32::MAX as i64 { i32::MAX } else if wide < i32::MIN as i64 { i32::MIN } else { wide as i32 };
+        assert!(a.saturating_mul(m) == expect);
+    }
+}
 include!("/verif/kc/harness_macro.rs");
 kc_harness! {
     c18_attr_byte_roundtrip;
@@ -108,4 +117,5 @@ kc_harness! {
     std_spec_char_range_contains;
     std_spec_u8_count_ones;
     std_spec_le_bytes;
+    std_spec_i32_saturating_mul;
 }
